@@ -154,6 +154,16 @@ def judge_mixed(version, b, le, u):
             out.append(("explicit_u_keyword_equals_positional", batch.tolist(), kw1.tolist() if kw1.tobytes() != batch.tobytes() else kw2.tolist()))
     except Exception as ex:
         out.append(("explicit_u_keyword_equals_positional", "values", f"{type(ex).__name__}: {str(ex)[:80]}"))
+    # the stage calls the exit probability first and the energy sampler second ON THE SAME ARRAYS (Taus.__call__): the
+    # sampler's answer must not depend on the earlier call having seen (or touched) them
+    try:
+        bb, ll, uu = np.array(b, dtype=float), np.array(le, dtype=float), np.array(u, dtype=float)
+        t.tau_exit_prob(bb, ll)
+        after = np.asarray(t.tau_energy(bb, ll, uu))
+        if after.tobytes() != batch.tobytes():
+            out.append(("energy_after_exit_probability_on_same_arrays", batch.tolist(), after.tolist()))
+    except Exception as ex:
+        out.append(("energy_after_exit_probability_on_same_arrays", "values", f"{type(ex).__name__}: {str(ex)[:80]}"))
     if batch.shape != (len(b),):
         return [("explicit_u_batch", (len(b),), batch.shape)]
     for i in range(len(b)):
